@@ -87,6 +87,14 @@ def InitOk (cfg : Cfg α) (sc : Nat) (h0 : Hdr) : Prop :=
 def MinLenOk (cfg : Cfg α) (h0 : Hdr) (log : List (Ev α)) : Prop :=
   (∃ p, (payloads log).head? = some p ∧ (Int.ofNat (cfg.size p)) > cfg.minLen) ∨ clGtMin cfg h0 = true
 
+/-- the two shapes a finished response can have: never handed to an encoder, or encoder output only, closed,
+    under the header `init` produced from an eligible handler header `h0` -/
+inductive Shape (cfg : Cfg α) (name : Bytes) (st : St α) : Prop where
+  | identity (h : plainOnly st.log = true)
+  | encoded (rest : List (Ev α)) (s sc : Nat) (h0 : Hdr)
+      (hlog : st.log = Ev.ec :: rest) (henc : encOnly rest = true)
+      (hsent : st.sent = some (s, initHdr name h0)) (hok : InitOk cfg sc h0) (hmin : MinLenOk cfg h0 rest)
+
 /-- the handler never switches protocols (101 hijacks the connection: no HTTP body follows) -/
 def No101 (ops : List (Op α)) : Prop := ∀ op ∈ ops, op ≠ Op.writeHeader 101
 
